@@ -137,10 +137,12 @@ def StrToInt(input_string):
     :return BV:                     bitvector of the integer resulting from the string or -1 in
                                     bitvector if the string cannot be transformed into an integer
     """
-    try:
-        return BVV(int(input_string.value), 64)
-    except ValueError:
-        return BVV(-1, 64)
+    value = input_string.value
+    # str.to_int is defined on non-empty strings of ASCII digits only; int() also accepts signs, blanks, underscores
+    # and other Unicode digits
+    if value.isascii() and value.isdigit():
+        return BVV(int(value), 64)
+    return BVV(-1, 64)
 
 
 def StrIsDigit(input_string):
